@@ -944,16 +944,19 @@ def _run_hist(case):
     # references (formula sense = minimisation): complete enumeration and HiGHS on the snapshot must agree
     ref = {}
     for tag, spec, S in (('P', P, SP), ('Q', Q, SQ)):
-        cls, val, _ = prog.ref_solve(S)
-        if cls != 'opt':
-            raise RuntimeError('HIST reference: HiGHS says %s for model %s' % (cls, spec['name']))
-        e = _enum_opt(spec)
-        if e is not None:
-            e = e if spec['obj'][0] == 'min' else -e
-            if abs(e - val) > 1e-6 * (1 + abs(e)):
-                raise RuntimeError('HIST references disagree on %s: enumeration %r, HiGHS %r' % (spec['name'], e, val))
-            val = e
-        ref[tag] = val
+        key = ('ref', spec['fe'], spec['name'], str(spec['items']), str(spec['obj']))
+        if key not in _enum_cache:          # per worker process; both references are deterministic functions of the spec
+            cls, val, _ = prog.ref_solve(S)
+            if cls != 'opt':
+                raise RuntimeError('HIST reference: HiGHS says %s for model %s' % (cls, spec['name']))
+            e = _enum_opt(spec)
+            if e is not None:
+                e = e if spec['obj'][0] == 'min' else -e
+                if abs(e - val) > 1e-6 * (1 + abs(e)):
+                    raise RuntimeError('HIST references disagree on %s: enumeration %r, HiGHS %r' % (spec['name'], e, val))
+                val = e
+            _enum_cache[key] = val
+        ref[tag] = _enum_cache[key]
     # the history
     s0 = _solve(mP, xP, i2, False)                       # P before anything else: "the same call without the first one"
     s1 = _solve(mQ, xQ, i1, False, params=params)        # Q with parameters
